@@ -77,6 +77,11 @@ func (c *Contract) Key() string {
 	return c.Target
 }
 
+// extraImports: imports requested by contract files ("//@ import [name] "path""), per package directory
+var extraImports = map[string]map[string]string{}
+
+var importRe = regexp.MustCompile(`^import\s+(?:(\w+)\s+)?"([^"]+)"$`)
+
 var kwRe = regexp.MustCompile(`^(shared|contract|extern|model|loop|lemma|spec|property|requires|ensures|invariant|assigns|let|decreases|inline|noescape|flag|go|end)\b\s*(.*)$`)
 
 func parseContractFile(path string) ([]*Contract, string, error) {
@@ -118,6 +123,18 @@ func parseContractFile(path string) ([]*Contract, string, error) {
 			} else {
 				return nil, "", fmt.Errorf("%s:%d: continuation without clause", path, i+1)
 			}
+			continue
+		}
+		if im := importRe.FindStringSubmatch(tb); im != nil {
+			name := im[1]
+			if name == "" {
+				name = im[2][strings.LastIndex(im[2], "/")+1:]
+			}
+			d := filepath.Dir(path)
+			if extraImports[d] == nil {
+				extraImports[d] = map[string]string{}
+			}
+			extraImports[d][name] = im[2]
 			continue
 		}
 		m := kwRe.FindStringSubmatch(tb)
@@ -799,6 +816,11 @@ func genStubFile(ps *pkgSyntax, cs []*Contract) (string, error) {
 			ln = ln[:i]
 		}
 		codeOnly.WriteString(ln + "\n")
+	}
+	for name, path := range extraImports[ps.dir] {
+		if _, ok := ps.imports[name]; !ok {
+			ps.imports[name] = path
+		}
 	}
 	for name, path := range ps.imports {
 		if regexp.MustCompile(`\b` + regexp.QuoteMeta(name) + `\.`).MatchString(codeOnly.String()) {
